@@ -210,11 +210,7 @@ Definition c01_paths_domain (w : wcase) : bool :=
       let c := cfg_of_case w in
       wf_tree t && fault_free t && no_limits c && xt_no_panic w && nodup_b ln_eqb (w_exts w)
       && negb (match w_paths w with [] => true | _ => false end)
-      && forallb (fun p => canonical_path p &&
-                           match lookup_from t (spath p) with
-                           | Some (Dir _ _ _) => reached (whole_tree c) t (spath p)
-                           | _ => true
-                           end) (w_paths w)
+      && forallb canonical_path (w_paths w)          (* requested_paths_exact: no further condition *)
   | _ => false
   end.
 
@@ -303,7 +299,7 @@ Definition scan_sorted (o : obs) : bool :=
   match o_scan o with
   | SDone _ inv sts fnd =>
       sorted_leb cmp_packages inv && sorted_leb cmp_status sts && sorted_leb cmp_findings fnd
-      && forallb (fun x => sorted_leb bcmp (p_locs (snd x))) inv
+      && forallb (fun x => sorted_leb bcmp (tl (p_locs (snd x)))) inv      (* Locations[0] stays first, the rest sorted *)
   | _ => true
   end.
 
@@ -585,3 +581,37 @@ Definition c09_paths_spec_on_obs (w : wcase) : bool :=
   end.
 
 Definition case_spec_ok_C09_paths (w : wcase) : bool := negb (c09_paths_domain w) || c09_paths_spec_on_obs w.
+
+(* ------------------------------------------------------------------ C09 oracle, several roots with faults *)
+Definition errs_faulty (c : cfg) (t : node) (exp : list (list N * list N)) (e : list N) : list erritem :=
+  flat_map (fun ep => match call_outcome c t ep with
+                      | Some (Some (e', it)) => if ln_eqb e' e then [it] else []
+                      | _ => []
+                      end) exp.
+Definition found_faulty (c : cfg) (t : node) (exp : list (list N * list N)) (e : list N) : bool :=
+  existsb (fun ep => ln_eqb (fst ep) e && not_lost c t (snd ep) &&
+                     match pkgs_of (c_extract c (fst ep) (snd ep)) with [] => false | _ => true end) exp.
+
+Definition c09_multi_domain (w : wcase) : bool :=
+  let c := cfg_of_case w in
+  (1 <? length (w_roots w))%nat
+  && forallb (fun t => wf_tree t && tree_quiet c t && gi_readable c t) (w_roots w)
+  && no_limits c && xt_no_panic w && nodup_b ln_eqb (w_exts w) && negb (c_fatal c)
+  && match w_paths w with [] => true | _ => false end.
+
+Definition c09_multi_spec_on_obs (w : wcase) : bool :=
+  let c := cfg_of_case w in
+  let o := w_obs w in
+  let per_root := map (fun t => (t, expected_calls c (erase_faults t))) (w_roots w) in
+  let exp := flat_map (fun te => filter (fun ep => not_lost c (fst te) (snd ep)) (snd te)) per_root in
+  oclass_eqb (o_class o) OOk
+  && list_eqb ep_eqb (calls (o_events o)) exp
+  && list_eqb tpkg_eqb (o_inv o) (inventory_of_calls c exp)
+  && list_eqb est_eqb (o_status o)
+       (map (fun e => (e, let errs := flat_map (fun te => errs_faulty c (fst te) (snd te) e) per_root in
+                          match errs with
+                          | [] => StSucceeded
+                          | _ => if existsb (fun te => found_faulty c (fst te) (snd te) e) per_root then StPartial errs else StFailed errs
+                          end)) (c_exts c)).
+
+Definition case_spec_ok_C09_multi (w : wcase) : bool := negb (c09_multi_domain w) || c09_multi_spec_on_obs w.
